@@ -195,6 +195,21 @@ func checkStatic(t ev.TB, c StaticCase, labels ...string) {
 		ev.Fail(t, "cred-static", c, "StaticHandler: %v", err)
 	}
 	cands := append([]Cand{{c.User, c.Password}, {c.Password, c.User}, {c.User, c.Password + "x"}, {c.User + "x", c.Password}, {"", ""}, {c.User, ""}, {"", c.Password}}, c.Cands...)
+	// the same characters split differently between the two fields must not be admitted
+	whole := c.User + c.Password
+	for i := 0; i <= len(whole); i++ {
+		cands = append(cands, Cand{whole[:i], whole[i:]})
+	}
+	for i := 0; i < len(c.User); i++ {
+		if c.User[i] == ':' {
+			cands = append(cands, Cand{c.User[:i], c.User[i+1:] + ":" + c.Password})
+		}
+	}
+	for i := 0; i < len(c.Password); i++ {
+		if c.Password[i] == ':' {
+			cands = append(cands, Cand{c.User + ":" + c.Password[:i], c.Password[i+1:]})
+		}
+	}
 	ev.Case(c.User != c.Password, c, append(labels, "static")...)
 	for _, cand := range cands {
 		pr, err := h.Authenticate(context.Background(), auth.ApplicationContext{Username: []byte(cand.User), Password: []byte(cand.Password)}, auth.TransportContext{})
@@ -212,7 +227,12 @@ func checkStatic(t ev.TB, c StaticCase, labels ...string) {
 
 func TestStatic(t *testing.T) {
 	rapid.Check(t, func(t *rapid.T) {
-		c := StaticCase{User: word.Draw(t, "user"), Password: word.Draw(t, "password")}
+		// the static store takes its pair from the command line: any characters, ':' included
+		sw := rapid.StringMatching(`[a-c:_ ]{0,6}`)
+		c := StaticCase{User: sw.Draw(t, "user"), Password: sw.Draw(t, "password")}
+		if rapid.Bool().Draw(t, "plainWords") {
+			c = StaticCase{User: word.Draw(t, "user2"), Password: word.Draw(t, "password2")}
+		}
 		k := rapid.IntRange(0, 4).Draw(t, "extras")
 		for i := 0; i < k; i++ {
 			c.Cands = append(c.Cands, Cand{word.Draw(t, "cu"), word.Draw(t, "cp")})
